@@ -26,6 +26,26 @@ unsigned width_of(uint64_t v) { // minimal little-endian byte width, 0 for 0
     return w;
 }
 
+// Read - write - read of one cell in straight-line code, compiled with optimisation like any
+// caller's code: whatever the header tells the compiler about these functions is part of the
+// promise that a read after a write returns the written value.
+static void rwr_unsigned(void *buf, size_t row, size_t col, uint64_t v, varintWidth w, varintDimensionPair dim,
+                         uint64_t *pre, uint64_t *post) {
+    *pre = varintDimensionPairEntryGetUnsigned(buf, row, col, w, dim);
+    varintDimensionPairEntrySetUnsigned(buf, row, col, v, w, dim);
+    *post = varintDimensionPairEntryGetUnsigned(buf, row, col, w, dim);
+}
+static void rwr_float(void *buf, size_t row, size_t col, float v, varintDimensionPair dim, float *pre, float *post) {
+    *pre = varintDimensionPairEntryGetFloat(buf, row, col, dim);
+    varintDimensionPairEntrySetFloat(buf, row, col, v, dim);
+    *post = varintDimensionPairEntryGetFloat(buf, row, col, dim);
+}
+static void rwr_double(void *buf, size_t row, size_t col, double v, varintDimensionPair dim, double *pre, double *post) {
+    *pre = varintDimensionPairEntryGetDouble(buf, row, col, dim);
+    varintDimensionPairEntrySetDouble(buf, row, col, v, dim);
+    *post = varintDimensionPairEntryGetDouble(buf, row, col, dim);
+}
+
 class MatrixHist : public Engine {
   public:
     const char *name() const override { return "hist.matrix"; }
@@ -114,7 +134,13 @@ class MatrixHist : public Engine {
                 row = r.chance(1, 4) ? (r.chance(1, 2) ? 0 : rows - 1) : r.below(rows);
                 col = r.chance(1, 4) ? (r.chance(1, 2) ? 0 : cols - 1) : r.below(cols);
             } else {
-                col = r.chance(1, 4) ? (r.chance(1, 2) ? 0 : lim_cells - 1) : r.below(lim_cells);
+                // only the first lim_cells cells exist in memory: any (row, col) whose index is below that
+                uint64_t idx = r.chance(1, 4) ? (r.chance(1, 2) ? 0 : lim_cells - 1) : r.below(lim_cells);
+                if (rows > 1 && cols <= idx && idx / cols < rows) {
+                    row = idx / cols;
+                    col = idx % cols;
+                } else
+                    col = idx < cols ? idx : idx % cols;
             }
             if (i > 0 && r.chance(1, 3) && p.ops.back().has("row")) { // the same cell again
                 row = p.ops.back().u("row");
@@ -182,7 +208,8 @@ class MatrixHist : public Engine {
             cells = (uint64_t)total;
             return true;
         }
-        cells = std::min<uint64_t>(cols, 512); // row 0 only
+        // only the first cells are in memory: row 0 of a wide matrix, the first rows of a narrow one
+        cells = rows ? 512 : std::min<uint64_t>(cols, 512);
         return false;
     }
 
@@ -328,12 +355,19 @@ class MatrixHist : public Engine {
                     continue;
                 }
                 uint64_t row = op.u("row"), col = op.u("col");
-                if (!full || rows == 0) row = 0;
+                if (rows == 0) row = 0;
                 if (full && rows > 0) {
                     row %= rows;
                     col %= cols;
-                } else
-                    col %= cells;
+                } else {
+                    // partially materialised: the cell must exist in the matrix and in memory
+                    col %= cols;
+                    if (rows) row %= rows;
+                    if ((__uint128_t)row * cols + col >= cells) {
+                        row = 0;
+                        col %= std::min<uint64_t>(cols, cells);
+                    }
+                }
                 if (row > 0) row_gt0 = true;
                 uint64_t idx = row * cols + col; // cell index (row 0: col)
                 stat("op." + k);
@@ -370,16 +404,22 @@ class MatrixHist : public Engine {
                 } else {
                     size_t off = H + (size_t)idx * ew;
                     if (k == "set") {
+                        // read - write - read of one cell in straight-line code (helpers above)
+                        uint64_t pre_want = 0, pre_got = 0, post_got = 0, post_want = 0;
+                        memcpy(&pre_want, &image[off], ew);
                         uint64_t v = op.u("v");
+                        bool rwr = true;
                         if (kind == "unsigned") {
                             if (ew < 8) v &= (1ULL << (8 * ew)) - 1;
-                            varintDimensionPairEntrySetUnsigned(buf, row, col, v, (varintWidth)ew, dim);
+                            rwr_unsigned(buf, row, col, v, (varintWidth)ew, dim, &pre_got, &post_got);
                             for (unsigned i = 0; i < ew; i++) image[off + i] = (uint8_t)(v >> (8 * i));
                         } else if (kind == "float") {
                             uint32_t b32 = (uint32_t)v;
-                            float f;
+                            float f, pf = 0, qf = 0;
                             memcpy(&f, &b32, 4);
-                            varintDimensionPairEntrySetFloat(buf, row, col, f, dim);
+                            rwr_float(buf, row, col, f, dim, &pf, &qf);
+                            memcpy(&pre_got, &pf, 4);
+                            memcpy(&post_got, &qf, 4);
                             memcpy(&image[off], &b32, 4);
 #ifdef SIM_HAVE_F16C
                         } else if (kind == "half") {
@@ -388,12 +428,24 @@ class MatrixHist : public Engine {
                             varintDimensionPairEntrySetFloatHalf(buf, row, col, f, dim);
                             uint16_t h = _cvtss_sh(f, 0);
                             memcpy(&image[off], &h, 2);
+                            rwr = false;
 #endif
                         } else {
-                            double dv;
+                            double dv, pd = 0, qd = 0;
                             memcpy(&dv, &v, 8);
-                            varintDimensionPairEntrySetDouble(buf, row, col, dv, dim);
+                            rwr_double(buf, row, col, dv, dim, &pd, &qd);
+                            memcpy(&pre_got, &pd, 8);
+                            memcpy(&post_got, &qd, 8);
                             memcpy(&image[off], &v, 8);
+                        }
+                        memcpy(&post_want, &image[off], ew);
+                        if (rwr && pre_got != pre_want) {
+                            fail("return-value", key, "cell (" + std::to_string(row) + "," + std::to_string(col) + ") reads " + std::to_string(pre_got) + " before the write, expected " + std::to_string(pre_want));
+                            break;
+                        }
+                        if (rwr && post_got != post_want) {
+                            fail("cell-value", key, "cell (" + std::to_string(row) + "," + std::to_string(col) + ") reads " + std::to_string(post_got) + " right after the write of " + std::to_string(post_want) + " (read, write, read in one function)");
+                            break;
                         }
                     } else if (k != "get")
                         continue;
